@@ -59,7 +59,8 @@ def cases(tier, seed):
 def variant_names():
     return ["base", "flx_shape", "flx_values", "z", "u", "v", "Kx", "Ky", "Kz", "domain", "levels_scalar", "levels_list", "levels_reordered",
             "modes", "meas_pt", "bg", "analytic", "halo_none", "halo_resolved", "halo_zero", "halo_other", "halo_same_pads", "halo_other_py", "halo_other_px", "precision", "dispersion",
-            "const_numeric", "const_analytic", "levels_long_a", "levels_long_b", "modes_over_x", "modes_clamped_x", "profiles_swapped"]
+            "const_numeric", "const_analytic", "levels_long_a", "levels_long_b", "modes_over_x", "modes_clamped_x", "profiles_swapped",
+            "levels_digits_a", "levels_digits_b", "shape_digits_a", "shape_digits_b"]
 
 
 def build(name):
@@ -86,6 +87,16 @@ def build(name):
         if name == "levels_long_b":
             lv[550], lv[551] = lv[551], lv[550]
         r["levels"] = lv
+    elif name in ("levels_digits_a", "levels_digits_b", "shape_digits_a", "shape_digits_b"):
+        # requests whose level lists / grid shapes are written with the same digits in the same order: [1, 12] and [11, 2];
+        # level 1 on 26 x 40 cells and level 12 on 6 x 40 cells
+        zz = np.linspace(0.05, 4.0, 21)
+        r["z"] = zz
+        r["profiles"] = [2.5 * (zz / 4.0) ** 0.2, -1.5 * (zz / 4.0) ** 0.2, 0.12 * zz + 0.01, 0.12 * zz + 0.01, 0.12 * zz + 0.01]
+        r["levels"] = {"levels_digits_a": [1, 12], "levels_digits_b": [11, 2], "shape_digits_a": [1], "shape_digits_b": [12]}[name]
+        if name.startswith("shape"):
+            r["srf_flx"] = np.zeros((26, 40)) if name.endswith("_a") else np.zeros((6, 40))
+            r["modes"] = (8, 6)
     elif name == "flx_shape":
         r["srf_flx"] = np.zeros((12, 14))
     elif name == "flx_values":
